@@ -100,7 +100,8 @@ def gen_history(rnd, g, kind="", pinned=None):
         # values of every built-in state type (what serialising caches have to round-trip)
         base = rnd.choice(["mk-tuple-3/ident", "mk-pairs-2/ident", "mk-set-2/ident", "mk-df-2/ident", "mk-bytes-3/ident",
                            "mk-nested/ident", "mk-none/ident", "mk-float-3/ident", "mk-text-2/ident", "mk-dict-2/ident",
-                           "mk-udict-2/ident", "mk-udict-1/setkey-beta-v"])
+                           "mk-udict-2/ident", "mk-udict-1/setkey-beta-v", "mk-inf-2/ident", "mk-inf-1/ident", "mk-nan/ident",
+                           "mk-dict-1/setkey-big-~X~/mk-inf~E"])
         base += "/" + g.query(0, first=False, max_len=2)
     if base is None and rnd.random() < 0.1:
         # a step that switches caching off / makes the result volatile, followed by steps that look as if they undid it
@@ -109,7 +110,8 @@ def gen_history(rnd, g, kind="", pinned=None):
                                 rnd.choice(["recache", "nonvol", "recache/nonvol", "nonvol/recache"]), g.query(0, first=False, max_len=2))
     if base is None and rnd.random() < 0.08:
         # state variables holding values of every kind (they travel in the caches' metadata)
-        base = "one/tag-~X~/%s~E/%s" % (rnd.choice(["mk-tuple-2", "mk-list-2", "mk-dict-2", "mk-text-2", "mk-float-3", "mk-none", "mk-nested"]),
+        base = "one/tag-~X~/%s~E/%s" % (rnd.choice(["mk-tuple-2", "mk-list-2", "mk-dict-2", "mk-text-2", "mk-float-3", "mk-none", "mk-nested",
+                                                   "mk-set-2", "mk-bytes-3", "mk-inf", "mk-set-1", "mk-bytes-1"]),
                                        g.query(0, first=False, max_len=2))
     fam = E.family(rnd, g, base=base)
     events = []
